@@ -364,11 +364,50 @@ def head_in_grammar(ix, n):
     return all(0 <= v < n for v in l) and all(a < b for a, b in zip(l[:-1], l[1:]))
 
 
+def concat_full_line(c):
+    """whole request (head and tail axes) for the mirror's `concatFull`; None where the model does not apply
+    (integer tail indices, parts with a first stage or a transform)"""
+    if c.get('k1tail') is not None or c.get('part_tf') or any(ix[0] == 'i' for ix in c['tails']):
+        return None
+    tails = list(c['tails']) + [FULL] * (len(c['tail']) - len(c['tails']))
+    enc = []
+    for n, ix in zip(c['tail'], tails):
+        try:
+            pos = np.arange(n)[ixgen.to_py(ix, as_array=True)]
+        except Exception:   # noqa: BLE001  (a malformed tail key: numpy's own refusal, nothing to mirror)
+            return None
+        enc.append(','.join(map(str, pos.tolist())) if len(pos) else 'e')
+    lens = ','.join(map(str, c['lens']))
+    return f"concatfull {lens} {ixgen.enc_shape(c['tail'])} {ixgen.enc_ix(c['head'])} {';'.join(enc) if enc else '-'}"
+
+
+def compare_full(ctx, c, mrep, impl):
+    """mirror of the whole request against the implementation's answer (error class or shape and values)"""
+    if mrep.startswith('E:'):
+        same = impl['err'] is not None
+        got = f"{impl['err']}" if same else f"an array of shape {impl['out'].shape}"
+    elif impl['err'] is not None:
+        same, got = False, f"{impl['err']} ({impl.get('errmsg', '')})"
+    else:
+        msh, mvals = mrep.split(' ')
+        msh = () if msh == '-' else tuple(int(x) for x in msh.split('x'))
+        mvals = [] if mvals == '-' else [int(x) for x in mvals.split(',')]
+        out = impl['out']
+        same = tuple(out.shape) == msh and out.ravel().tolist() == mvals
+        got = f'shape {tuple(out.shape)} {out.ravel()[:8].tolist()}'
+    ctx.tag('concat-full-agrees' if same else 'concat-full-model-differs')
+    if not same:
+        ctx.advise(f'concat mirror (whole request) predicts {mrep[:80]} but implementation answered {got}: {concat_full_line(c)}')
+
+
 def evaluate(ctx, cases):
     lines = []
     for c in cases:
         lines += single_lines(c) if c['kind'] == 'single' else concat_lines(c)
     replies = common.run_model('C05', lines)
+    full_lines = {i: concat_full_line(c) for i, c in enumerate(cases) if c['kind'] == 'concat'}
+    full_lines = {i: l for i, l in full_lines.items() if l is not None}
+    full_replies = dict(zip(full_lines, common.run_model('C05', list(full_lines.values())))) if full_lines else {}
     bad = []
     for i, c in enumerate(cases):
         rep = replies[3 * i:3 * i + 3]
@@ -383,6 +422,12 @@ def evaluate(ctx, cases):
         else:
             impl, whole = run_concat_impl(c)
             v = judge_concat(ctx, c, rep, impl, whole)
+            if i in full_replies and not v:
+                compare_full(ctx, c, full_replies[i], impl)
+            elif i in full_replies:
+                # the implementation departs from numpy here: does the mirror of the code depart the same way?
+                ctx.tag('concat-full-on-deviation')
+                compare_full(ctx, c, full_replies[i], impl)
             ctx.tag('concat-head-' + c['head'][0], f"parts-{len(c['lens'])}")
             nontriv = impl['out'] is not None and impl['out'].size > 0
             ctx.count(lines[3 * i], nontriv, sample={'request': lines[3 * i], 'model': rep[0][:100]})
